@@ -203,3 +203,128 @@ Example fwd_back_nonvacuous :
   filter_cursor true filtered 6 1 2 false = 3%Z /\
   filter_cursor true filtered 6 3 2 true = 1%Z.
 Proof. vm_compute. repeat split; reflexivity. Qed.
+
+(* (4b) several clients. One debugger, two connected clients (Model/DbgIndex:
+   dbg, dbg_step), any history of messages arriving for either client,
+   filter toggles, client switches and cursor commands.
+
+   Selecting the other client leaves, as its view, exactly the records THAT
+   client has received that pass the flags of THAT moment: a function of
+   (its records, the flags) alone, whenever the filters were toggled and
+   whoever was selected then. *)
+Theorem select_view_history_independent :
+  forall (health : list nat) (f0 : filters) (evs : list event) (who : bool),
+    let d := run_events health (dbg_init f0) evs in
+    d_sel d <> who ->
+    group_any (flags_after f0 evs) = true ->
+    let d' := dbg_step health d (ESelect who) in
+    d_sel d' = who /\
+    d_flags d' = flags_after f0 evs /\
+    c_filtered (sel_client d') =
+      filter_client_txs (flags_after f0 evs) health
+        (map fst (arrived who evs)) (map snd (arrived who evs)).
+Proof. exact C16Proofs.select_view_lemma. Qed.
+Print Assumptions select_view_history_independent.
+
+(* "at EVERY moment the view of the selected client is the records it has
+   received that pass the current flags" is FALSE of the faithful model:
+     forall health f0 evs,
+       let d := run_events health (dbg_init f0) evs in
+       group_any (flags_after f0 evs) = true ->
+       c_filtered (sel_client d) =
+         filter_client_txs (flags_after f0 evs) health
+           (map fst (arrived (d_sel d) evs)) (map snd (arrived (d_sel d) evs))
+   (witness: FilterCanceledTx switched off while FilterEmptyTx is on - the
+   list is recomputed with the old FilterEmptyTx, an empty transition stays
+   hidden; the other reason is filter_live_sound_refuted) *)
+Theorem filter_view_history_independent_refuted :
+  exists (health : list nat) (f0 : filters) (evs : list event),
+    let d := run_events health (dbg_init f0) evs in
+    group_any (flags_after f0 evs) = true /\
+    c_filtered (sel_client d) <>
+      filter_client_txs (flags_after f0 evs) health
+        (map fst (arrived (d_sel d) evs)) (map snd (arrived (d_sel d) evs)).
+Proof. exact C16Proofs.view_history_refuted_lemma. Qed.
+Print Assumptions filter_view_history_independent_refuted.
+
+(* ... the strongest true statement: on histories where no message arrives
+   while SkipAutoCanceledTx is on and no toggle switches FilterCanceledTx /
+   FilterQueuedTx off (tame_events), by induction over the history *)
+Theorem filter_view_history_independent_partial :
+  forall (health : list nat) (f0 : filters) (evs : list event),
+    tame_events f0 evs = true ->
+    let d := run_events health (dbg_init f0) evs in
+    group_any (flags_after f0 evs) = true ->
+    d_flags d = flags_after f0 evs /\
+    c_filtered (sel_client d) =
+      filter_client_txs (flags_after f0 evs) health
+        (map fst (arrived (d_sel d) evs)) (map snd (arrived (d_sel d) evs)).
+Proof. exact C16Proofs.view_partial_lemma. Qed.
+Print Assumptions filter_view_history_independent_partial.
+
+(* a tame history in which FilterCanceledTx is switched on while the OTHER
+   client is selected: back on the first client its view has followed
+   ([0; 2]: the canceled record 1 is gone), although the list built on
+   arrival was [0; 1; 2] *)
+Example filter_view_history_independent_nonvacuous :
+  let f0 := mkFilters false false false false true false false in
+  let f1 := mkFilters true false false false true false false in
+  let m := fun id acc => mkMsg id [N.of_nat (S id); 0%N] (N.of_nat (S id)) 0 0 (N.of_nat (S id))
+                               acc false false false [0] [] in
+  let p := mkParsed 1 1 [] [] [] in
+  let evs := [EArrive false (m 0 true) p; EArrive true (m 5 true) p; EArrive false (m 1 false) p;
+              EArrive false (m 2 true) p; ESelect true; EToggle f1; ESelect false] in
+  tame_events f0 evs = true /\
+  group_any (flags_after f0 evs) = true /\
+  d_sel (run_events [] (dbg_init f0) evs) = false /\
+  c_filtered (get_client (run_events [] (dbg_init f0) (firstn 6 evs)) false) = [0; 1; 2] /\
+  c_filtered (sel_client (run_events [] (dbg_init f0) evs)) = [0; 2].
+Proof. vm_compute. repeat split; reflexivity. Qed.
+
+(* the cursor a client switch leaves (hScrollToTime(lastScrolledTxTime),
+   else the last record, both filtered downwards) is inside the store and, when
+   listing is in force, on no record or a listed one; over a recomputed view
+   the shown record matches the flags *)
+Theorem select_cursor_shown :
+  forall (active : bool) (filtered : list nat) (msgs : list msg) (cur : Z) (last : N),
+    cursor_in_range (length msgs) cur = true ->
+    cursor_ok active filtered (length msgs) (select_cursor active filtered msgs cur last) = true.
+Proof. exact C16Proofs.select_cursor_ok_lemma. Qed.
+Print Assumptions select_cursor_shown.
+
+Theorem select_cursor_matches :
+  forall (f : filters) (health : list nat) (msgs : list msg) (ps : list parsed) (cur : Z) (last : N),
+    cursor_in_range (length msgs) cur = true ->
+    let fl := filter_client_txs f health msgs ps in
+    let cu := select_cursor true fl msgs cur last in
+    cursor_ok true fl (length msgs) cu = true /\ shown_matches f health msgs ps cu = true.
+Proof. exact C16Proofs.select_cursor_shown_lemma. Qed.
+Print Assumptions select_cursor_matches.
+
+(* over a recomputed view (what a client switch leaves) every cursor command
+   comes to rest on the FIRST matching record in its direction: the run-time
+   predicate scan_codes (68 shows a hidden record, 69 passes over a matching
+   one) is empty; a command its Enter handler rejects leaves the cursor *)
+Theorem fresh_view_steps_exact :
+  forall (f : filters) (health : list nat) (ms : list msg) (ps : list parsed) (cur : Z) (c : nav_cmd),
+    let fl := filter_client_txs f health ms ps in
+    cursor_ok true fl (length ms) cur = true ->
+    let cu := snd (nav_step f f true health ms ps fl cur c) in
+    match nav_target ms cur c with
+    | Some (new, back) => scan_codes f health ms ps new cu back = []
+    | None => cu = cur
+    end.
+Proof. exact C16Proofs.fresh_view_steps_lemma. Qed.
+Print Assumptions fresh_view_steps_exact.
+
+Example fresh_view_steps_nonvacuous :
+  let f := mkFilters true false false false false false false in
+  let m := fun id acc => mkMsg id [1%N] 1 0 0 1 acc false false false [0] [] in
+  let ms := [m 0 true; m 1 false; m 2 true] in
+  let ps := [mkParsed 1 1 [] [] []; mkParsed 1 0 [] [] []; mkParsed 1 0 [] [] []] in
+  filter_client_txs f [] ms ps = [0; 2] /\
+  nav_target ms 1 (NFwd 1) = Some (2%Z, false) /\
+  snd (nav_step f f true [] ms ps [0; 2] 1 (NFwd 1)) = 3%Z /\
+  scan_codes f [] ms ps 2 2 false = [68%N] /\
+  scan_codes f [] ms ps 2 1 false = [69%N].
+Proof. vm_compute. repeat split; reflexivity. Qed.
